@@ -94,8 +94,9 @@ def s_hash(F, res):
 def s_prune(F, res):
     AM = CO + "asset_math::"
     n = 0
-    for name in ("fold_multiassets", "fold_assets", "aggregate_assets"):
-        f = F.fn(AM + name)
+    for f in sorted((g for g in F.fns.values() if g["crate"] == "tx3_cardano" and not is_derive(g) and g["def_kind"] != "Closure"), key=lambda g: g["path"]):
+        if not any((t.get("callee") or "").endswith("::insert") and "BTreeMap<" in " ".join((t.get("gargs") or [])[1:2]) for _, t in mir.calls(f)):
+            continue
         cfg = mir.CFG(f)
         du = mir.DefUse(f)
         for bi, t in mir.calls(f):
@@ -115,7 +116,7 @@ def s_prune(F, res):
             may_empty = False
             for bj, t2 in mir.calls(f):
                 c2 = t2.get("resolved") or t2.get("callee") or ""
-                if c2.startswith(AM) and cfg.dominates(bj, bi) and bj != bi:
+                if c2 in F.fns and F.fns[c2]["crate"] == "tx3_cardano" and cfg.dominates(bj, bi) and bj != bi:
                     callee = F.fns.get(c2)
                     if callee is not None and any((t3.get("callee") or "").endswith("::remove") for _, t3 in mir.calls(callee)):
                         ao = {repr(x) for a in t2["args"] for x in mir.provenance(f, du, a)}
@@ -213,14 +214,16 @@ def s_present(F, res):
                 for d in du.defs.get(r, []):
                     if d[0] != "call" and d[3]["rv"]["k"] == "use":
                         src = mir.op_place(d[3]["rv"]["op"])
-                        if src is not None and any(q[0] == "dc" and q[1] == "Some" or (q[0] == "f" and len(q) > 3 and q[3] == "Some") for q in src["p"]):
+                        if src is not None and any(q[0] == "dc" or q[0] == "f" for q in src["p"]):
+                            # moved out of an existing value (`Some(m)`, `Value::Multiasset(_, m)`, a field): it was built
+                            # under this same rule wherever that value was built
                             from_some = True
             mutated = []
             for bj, sj, s2 in mir.stmts(f):
                 if s2["rv"]["k"] == "ref" and s2["rv"].get("mut") and s2["rv"]["pl"]["l"] in roots:
                     mutated.append(s2["line"])
             if from_some and not mutated:
-                res.add([ok("S-PRESENT", key, w, "the untouched payload of an Option built under the same rule")])
+                res.add([ok("S-PRESENT", key, w, "the untouched payload of an existing value (built under the same rule)")])
             elif from_some:
                 res.add([finding("S-PRESENT", key, where(f, mutated[0]), "the map is handed out as `&mut` (entries can be removed, e.g. amounts that cancel) after it came out of its Option and is then wrapped in `Some(..)` without an emptiness test: the field can be present but empty")])
             else:
